@@ -505,6 +505,10 @@ func specToGo(s string, resultName string) string {
 					sb.WriteString("__lastsent")
 				case w == "sentcount" && next == '(':
 					sb.WriteString("__sentcount")
+				case w == "rlocks" && next == '(':
+					sb.WriteString("__rlocks")
+				case w == "wlocked" && next == '(':
+					sb.WriteString("__wlocked")
 				case w == "haskey" && next == '(':
 					sb.WriteString("__haskey")
 				case w == "visited" && next == '(':
